@@ -226,10 +226,8 @@ func dict_to_map(mapping []string, nmap int, dict StringDict, values []Object, d
 			if !ok {
 				panic("dict_to_map: expecting Cell")
 			}
-			if cell.Get() != value {
-				cell.Set(value)
-			}
-		} else if values[j] != value {
+			cell.Set(value)
+		} else {
 			values[j] = value
 		}
 	}
